@@ -24,6 +24,10 @@ pub enum Rep {
     Identity,
     /// closure returning a constant
     ConstClosure(String),
+    /// stateful closure: `<k:match>` where k counts its own invocations from 0 — the k-th replaced
+    /// match must carry k, i.e. the replacer is invoked exactly once per replaced match, in order,
+    /// and never for a match that is not replaced
+    Counting,
     /// NoExpand(s)
     NoExpand(String),
     /// &str without `$`
@@ -52,6 +56,7 @@ impl Rep {
     fn to_json(&self) -> Value {
         match self {
             Rep::Identity => json!(["identity"]),
+            Rep::Counting => json!(["counting"]),
             Rep::ConstClosure(s) => json!(["const", s]),
             Rep::NoExpand(s) => json!(["noexpand", s]),
             Rep::Str(s) => json!(["str", s]),
@@ -77,6 +82,7 @@ impl Rep {
         let s = |i: usize| a.get(i).and_then(|x| x.as_str()).map(|x| x.to_string());
         Some(match a.first()?.as_str()? {
             "identity" => Rep::Identity,
+            "counting" => Rep::Counting,
             "const" => Rep::ConstClosure(s(1)?),
             "noexpand" => Rep::NoExpand(s(1)?),
             "str" => Rep::Str(s(1)?),
@@ -122,14 +128,14 @@ impl Rep {
     /// true when try_replacen takes the find_iter fast path for this replacer
     fn fast_path(&self) -> bool {
         match self {
-            Rep::Identity | Rep::ConstClosure(_) => false,
+            Rep::Identity | Rep::ConstClosure(_) | Rep::Counting => false,
             Rep::NoExpand(_) | Rep::Str(_) | Rep::OwnedString(_) | Rep::CowStr(_) => true,
             Rep::Template(t) => !Rep::template_string(t).contains('$'),
         }
     }
 
     /// The model's idea of the replacer's output for one match.
-    fn expand(&self, text: &str, groups: &Groups, names: &[(String, usize)]) -> String {
+    fn expand(&self, text: &str, groups: &Groups, names: &[(String, usize)], k: usize) -> String {
         let grp = |n: usize| -> &str {
             match groups.get(n) {
                 Some(Some((s, e))) => &text[*s..*e],
@@ -150,6 +156,7 @@ impl Rep {
         };
         match self {
             Rep::Identity => grp(0).to_string(),
+            Rep::Counting => format!("<{}:{}>", k, grp(0)),
             Rep::ConstClosure(s) | Rep::NoExpand(s) | Rep::Str(s) | Rep::OwnedString(s) | Rep::CowStr(s) => s.clone(),
             Rep::Template(toks) => {
                 let mut out = String::new();
@@ -237,6 +244,14 @@ fn call_real_inner(re: &Regex, text: &str, n: usize, rep: &Rep, entry: Entry) ->
     }
     match rep {
         Rep::Identity => go!(|c: &Captures<'_>| c.get(0).map(|m| m.as_str().to_string()).unwrap_or_default()),
+        Rep::Counting => {
+            let calls = std::cell::Cell::new(0usize);
+            go!(|c: &Captures<'_>| {
+                let k = calls.get();
+                calls.set(k + 1);
+                format!("<{}:{}>", k, c.get(0).map(|m| m.as_str()).unwrap_or(""))
+            })
+        }
         Rep::ConstClosure(s) => go!(|_: &Captures<'_>| s.clone()),
         Rep::NoExpand(s) => go!(NoExpand(s.as_str())),
         Rep::Str(s) => go!(s.as_str()),
@@ -324,7 +339,7 @@ fn model(text: &str, m: &Matches, n: usize, rep: &Rep) -> Option<Outcome<RepOut>
             g.push(Some((*s, *e)));
         }
         g[0] = Some((*s, *e));
-        out.push_str(&rep.expand(text, &g, &m.names));
+        out.push_str(&rep.expand(text, &g, &m.names, i));
         last = *e;
     }
     out.push_str(text.get(last..)?);
@@ -630,6 +645,8 @@ fn reuse(re: &Regex, text: &str, n: usize, rep: &Rep, m: &Matches) -> Option<Fou
     }
     match rep {
         Rep::Identity => twice!(|c: &Captures<'_>| c.get(0).map(|m| m.as_str().to_string()).unwrap_or_default(), "closure"),
+        // a counting closure keeps counting across the two calls: not a reuse candidate
+        Rep::Counting => {}
         Rep::ConstClosure(s) => twice!(|_: &Captures<'_>| s.clone(), "closure"),
         Rep::NoExpand(s) => twice!(NoExpand(s.as_str()), "NoExpand"),
         Rep::Str(s) | Rep::OwnedString(s) | Rep::CowStr(s) => {
@@ -671,7 +688,8 @@ fn replay_equivalence(case: &Value) -> Option<(String, String)> {
 fn gen_rep(rng: &mut Rng, re: &Regex) -> Rep {
     let consts = ["X", "", "yy", "é", "a"];
     let c = rng.pick(&consts).to_string();
-    match rng.below(8) {
+    match rng.below(9) {
+        8 => Rep::Counting,
         0 => Rep::Identity,
         1 => Rep::ConstClosure(c),
         2 => Rep::NoExpand(if rng.chance(1, 2) { format!("{}$1", c) } else { c }),
